@@ -61,7 +61,7 @@ def confirm(patch, demo):
     return res
 
 
-def detect(patch, props):
+def detect(patch, props, restore=True):
     rc, out = sh(f"git -C {REPO} status --porcelain")
     if out.strip():
         raise SystemExit("/repo is not clean: " + out)
@@ -69,17 +69,23 @@ def detect(patch, props):
     if rc != 0:
         raise SystemExit("patch does not apply to /repo: " + out)
     fired = {}
+
+    def one(p):
+        rc, out = sh(f"{PY} -m sa check {p} --tier quick", cwd=VERIF)
+        viol = re.findall(r"rule=(\S+) at (\S+) instance=(.*)", out)
+        return p, {"exit": rc, "violations": [{"rule": r, "where": w, "instance": i[:160]} for r, w, i in viol][:8],
+                   "analysis_errors": [l[:200] for l in out.splitlines() if l.startswith("ANALYSIS-ERROR")][:3]}
+
+    from concurrent.futures import ThreadPoolExecutor
     try:
-        for p in props:
-            rc, out = sh(f"{PY} -m sa check {p} --tier quick", cwd=VERIF)
-            viol = re.findall(r"rule=(\S+) at (\S+) instance=(.*)", out)
-            fired[p] = {"exit": rc, "violations": [{"rule": r, "where": w, "instance": i[:160]} for r, w, i in viol][:8],
-                        "analysis_errors": [l[:200] for l in out.splitlines() if l.startswith("ANALYSIS-ERROR")][:3]}
+        with ThreadPoolExecutor(16) as ex:
+            fired = dict(ex.map(one, props))
     finally:
         sh(f"git -C {REPO} checkout -- .")
         # restore the evidence files written while the patch was applied
-        for p in props:
-            sh(f"{PY} -m sa check {p} --tier quick", cwd=VERIF)
+        if restore:
+            with ThreadPoolExecutor(16) as ex:
+                list(ex.map(one, props))
     return fired
 
 
